@@ -251,7 +251,11 @@ func (c *Ctx) intBinop(st *State, op token.Token, a, b Term, t types.Type, bt ty
 	finish := func(x Term) Term {
 		if signed {
 			if c.fc != nil && c.fc.Opts["wrap"] != "" {
-				return c.wrapInt(x, t)
+				// "opt wrap" = exact two's-complement wrap-around for every signed type; "opt wrap int32 ..." only for the listed ones
+				w := c.fc.Opts["wrap"]
+				if w == "true" || strings.Contains(" "+w+" ", " "+types.TypeString(under(t), nil)+" ") {
+					return c.wrapInt(x, t)
+				}
 			}
 			nx := c.nameIfBig(x, "ar")
 			c.oblige(st, "overflow", "", pos, c.inRange(nx, t), "signed arithmetic stays in range")
@@ -668,6 +672,12 @@ func (c *Ctx) globalVar(st *State, o *types.Var) Val {
 	st.ghosts[key] = v
 	for _, f := range facts {
 		c.axiom(f)
+	}
+	// sentinel errors (package-level `var ErrX = errors.New(...)`) are never nil
+	if s, ok := v.(Scalar); ok && types.TypeString(o.Type(), nil) == "error" &&
+		(strings.HasPrefix(o.Name(), "Err") || strings.HasPrefix(o.Name(), "err")) {
+		c.axiom(app(SBool, "<", Term{"0", SInt}, s.T))
+		c.trusted["package-level sentinel errors (var Err... / err...) are non-nil"] = true
 	}
 	return v
 }
@@ -1115,6 +1125,11 @@ func (c *Ctx) boxIface(st *State, v Val, dyn types.Type) Val {
 	case Ptr:
 		// NB: an interface holding a nil pointer is non-nil in Go; this model conflates the two (flagged).
 		c.trusted["interface holding a typed nil pointer is treated as nil"] = true
+		// an interface value keeps only the object reference: the pointer must address a whole object (index 0)
+		if x.Idx.S != c.idx(0).S {
+			c.oblige(st, "subset", "whole-object-pointer", c.curPos, Or(Eq(x.Ref, Term{"0", SInt}), Eq(x.Idx, c.idx(0))),
+				"pointer converted to an interface addresses a whole object, not an array element")
+		}
 		return Scalar{x.Ref, iface}
 	}
 	r := c.declare("iface", SInt)
@@ -1167,6 +1182,9 @@ func (c *Ctx) evalIndexTerm(st *State, e ast.Expr) Term {
 			// uint64 index >= 2^63 is out of range: bounds check below uses signed compare after this guard
 			c.oblige(st, "bounds", "uint-index", e.Pos(), app(SBool, "bvsge", v.T, IntLit64(bvSort(64), 0)), "index fits int")
 		}
+	}
+	if c.mode == ModeInt {
+		return c.nameDeclared(v.T, "ix")
 	}
 	return v.T
 }
